@@ -115,9 +115,12 @@ ComposeCase(c) ==
   LET pts == PtBox(c.nd, c.lo, c.hi) IN
   First(<< <<"Compose", \A p \in pts : MatVec(c.CA, c.Cb, p) = MatVec(c.A1, c.b1, MatVec(c.A2, c.b2, p))>> >>)
 
+(* a dynamic bound (exported as 0) is kept by canonicalisation like any bound other than 1; for the comparison of meanings it is
+   instantiated with an extent of 3 *)
+InstDyn(S) == [S EXCEPT !.bounds = [j \in DOMAIN S.bounds |-> IF S.bounds[j] = 0 THEN 3 ELSE S.bounds[j]]]
 AccessPatCase(c) ==
   First(<<
-    <<"CanonicalizeMeaning", SameIterSpace(c.orig, c.canon)>>,
+    <<"CanonicalizeMeaning", SameIterSpace(InstDyn(c.orig), InstDyn(c.canon))>>,
     <<"CanonicalizeIsDropUnit", c.canon = DropUnit(c.orig)>>,
     <<"CanonicalizeIdempotent", c.canon2 = c.canon>>,
     <<"InnerDims", c.inner = InnerDims(c.orig, c.k)>>
